@@ -214,6 +214,44 @@ func (sc *scenario) close() {
 	}
 }
 
+// restartService stops the engine and the stack and starts both again on the same database file.
+func (sc *scenario) restartService() error {
+	if sc.srv != nil {
+		done := make(chan struct{})
+		go func() { _ = sc.srv.Shutdown(); close(done) }()
+		select {
+		case <-done:
+		case <-time.After(10 * time.Second):
+		}
+		sc.srv = nil
+	}
+	for _, e := range sc.exp {
+		simnet.SafeDisconnect(e)
+	}
+	sc.exp = nil
+	sc.s.Close()
+	sc.s = nil
+	opts := stack.Options{Dir: sc.dir}
+	var err error
+	if sc.p.Engine == "legacy" {
+		sc.s, sc.srv, err = simnet.StartLegacy(opts, sc.p.DisableCP, 0)
+		if err != nil {
+			return fmt.Errorf("infra: restart: %w", err)
+		}
+		return nil
+	}
+	sc.s, err = stack.New(opts)
+	if err != nil {
+		return fmt.Errorf("infra: restart: %w", err)
+	}
+	ep, err := simnet.ExpPeer(sc.s, sc.nodes[0], nil)
+	if err != nil {
+		return fmt.Errorf("experimental peer could not connect/start after the restart: %v", err)
+	}
+	sc.exp = append(sc.exp, ep)
+	return nil
+}
+
 // heightOf maps every hash of the universe to its height.
 func (sc *scenario) heightOf() map[chainhash.Hash]int32 {
 	m := map[chainhash.Hash]int32{sc.u.Genesis: 0}
